@@ -11,6 +11,8 @@ LEVEL = "exploration"
 CASES = {"quick": 900, "thorough": 600000}
 SHARDS = {"quick": 8, "thorough": 16}
 ANCHORS = ["api.py:chain", "api.py:_eq", "api.py:_in", "api.py:Converter.get_subconverter", "api.py:Converter.add_record", "api.py:Converter._merge"]
+# public functions the driver does not call itself (the library reaches them internally today): missing => reported, not inconclusive
+SOFT_ANCHORS = ['api.py:Converter.add_record']
 DECIDING = ["chain", "get_subconverter", "sub-answers", "chain-of-one-answers"]
 RULE = (
     "case = 1-4 strict converters of 1-3 records over a shared tiny alphabet (CURIE prefixes a A b B ab c C and the empty "
